@@ -6,6 +6,7 @@ import (
 	"fmt"
 
 	"github.com/zclconf/go-cty/cty"
+	"github.com/zclconf/go-cty/cty/function/stdlib"
 	ctyjson "github.com/zclconf/go-cty/cty/json"
 	"pgregory.net/rapid"
 
@@ -190,6 +191,11 @@ func init() {
 
 	jopts := topts
 	jopts.Capsule = false
+	decoyTypes := []cty.Type{
+		cty.List(cty.Map(cty.Bool)),
+		cty.ObjectWithOptionalAttrs(map[string]cty.Type{"decoy": cty.Tuple([]cty.Type{cty.Number, cty.DynamicPseudoType}), "x": cty.String}, []string{"x"}),
+		cty.String,
+	}
 	facet.Register(facet.F[spec.T]{
 		Prop: "C07", Name: "json/roundtrip", Rule: "capsule-free type of depth >= 1 or with optional attributes / dynamic", Quick: 30000, Thorough: 300000,
 		Gen: func(t *rapid.T) spec.T { return gen.Type(jopts).Draw(t, "t") },
@@ -207,12 +213,27 @@ func init() {
 				var back cty.Type
 				if via == "method" {
 					b, err = orig.MarshalJSON()
-					if err == nil {
-						err = (&back).UnmarshalJSON(b)
-					}
 				} else {
 					b, err = ctyjson.MarshalType(orig)
-					if err == nil {
+				}
+				if err == nil {
+					// other types are serialized before the bytes are read back: a
+					// serialization must not depend on the serializer being left alone
+					before := string(b)
+					for _, d := range decoyTypes {
+						if _, derr := d.MarshalJSON(); derr != nil {
+							return facet.Failf("json-error", "decoy type %#v: %v", d, derr)
+						}
+						if _, derr := ctyjson.MarshalType(d); derr != nil {
+							return facet.Failf("json-error", "decoy type %#v: %v", d, derr)
+						}
+					}
+					if string(b) != before {
+						return facet.Failf("json-output-overwritten", "%s: the bytes returned for %s were %s and read %s after other types had been serialized", via, ty, before, b)
+					}
+					if via == "method" {
+						err = (&back).UnmarshalJSON(b)
+					} else {
 						back, err = ctyjson.UnmarshalType(b)
 					}
 				}
@@ -356,4 +377,97 @@ func depth1Types() []spec.T {
 	}
 	_ = fmt.Sprint
 	return out
+}
+
+// ---------------------------------------------------------------- equals/derived
+
+// DerivedIn is the input of equals/derived: a tuple type and a sub-range of
+// its element types.
+type DerivedIn struct {
+	T      spec.T `json:"t"`
+	Lo, Hi int
+	Via    string `json:"via"` // "elements" (cty.Tuple over a sub-slice of TupleElementTypes) or "slice" (the return type of the stdlib slice function)
+}
+
+func init() {
+	facet.Register(facet.F[DerivedIn]{
+		Prop: "C07", Name: "equals/derived",
+		Rule:  "a tuple type with 1-5 elements (element types to depth 1, placeholders and optional attributes included) and the tuple type DERIVED from it over a sub-range [lo,hi) of its elements the way the library derives such types itself (cty.Tuple over a sub-slice of TupleElementTypes(), and the return type stdlib.SliceFunc predicts for an unknown value of the type): the derived type shares storage with the original, and must be equal to it exactly when the model says so (same length and element types); conformance and its converse likewise; non-trivial when the range is a proper prefix or suffix of length >= 1",
+		Quick: 30000, Thorough: 300000,
+		Gen: func(t *rapid.T) DerivedIn {
+			n := rapid.IntRange(1, 5).Draw(t, "n")
+			es := make([]spec.T, n)
+			for i := range es {
+				es[i] = gen.Type(gen.TypeOpts{Depth: 1, Dynamic: true, Optional: true}).Draw(t, "elem")
+				if i > 0 && rapid.IntRange(0, 2).Draw(t, "same") == 0 {
+					es[i] = es[i-1]
+				}
+			}
+			lo := rapid.IntRange(0, n).Draw(t, "lo")
+			if rapid.IntRange(0, 2).Draw(t, "prefix") != 0 {
+				lo = 0
+			}
+			hi := rapid.IntRange(lo, n).Draw(t, "hi")
+			return DerivedIn{T: spec.Tuple(es...), Lo: lo, Hi: hi, Via: rapid.SampledFrom([]string{"elements", "elements", "slice"}).Draw(t, "via")}
+		},
+		Check: func(c *facet.Ctx, in DerivedIn) error {
+			if in.T.K != spec.KTuple || in.Lo < 0 || in.Hi > len(in.T.Elems) || in.Lo > in.Hi {
+				c.Skip()
+				return nil
+			}
+			orig := in.T.Cty()
+			model := spec.Tuple(in.T.Elems[in.Lo:in.Hi]...)
+			var derived cty.Type
+			switch in.Via {
+			case "slice":
+				if in.T.HasOptional() {
+					c.Skip() // values never have optional-attribute types
+					return nil
+				}
+				var err error
+				func() {
+					defer func() {
+						if r := recover(); r != nil {
+							err = fmt.Errorf("panic: %v", r)
+						}
+					}()
+					derived, err = stdlib.SliceFunc.ReturnTypeForValues([]cty.Value{cty.UnknownVal(orig), cty.NumberIntVal(int64(in.Lo)), cty.NumberIntVal(int64(in.Hi))})
+				}()
+				if err != nil {
+					c.Label("slice-rejected")
+					c.Skip()
+					return nil
+				}
+			default:
+				derived = cty.Tuple(orig.TupleElementTypes()[in.Lo:in.Hi])
+			}
+			c.Label("via=" + in.Via)
+			if in.Hi-in.Lo >= 1 && in.Hi-in.Lo < len(in.T.Elems) && (in.Lo == 0 || in.Hi == len(in.T.Elems)) {
+				c.NonTrivial()
+			}
+			if !spec.FromCty(derived).Equal(model) {
+				return facet.Failf("derived-type", "type derived from %s over [%d,%d) via %s is %s, want %s", in.T, in.Lo, in.Hi, in.Via, spec.FromCty(derived), model)
+			}
+			want := model.Equal(in.T)
+			if got := derived.Equals(orig); got != want {
+				return facet.Failf("equals-derived", "the tuple type derived from %s over [%d,%d) (%s) Equals the original: %t, model says %t", in.T, in.Lo, in.Hi, model, got, want)
+			}
+			if got := orig.Equals(derived); got != want {
+				return facet.Failf("equals-derived", "%s Equals the tuple type derived from it over [%d,%d) (%s): %t, model says %t", in.T, in.Lo, in.Hi, model, got, want)
+			}
+			if !derived.Equals(model.Cty()) || !model.Cty().Equals(derived) {
+				return facet.Failf("equals-derived", "the tuple type derived from %s over [%d,%d) is not equal to an independently built %s", in.T, in.Lo, in.Hi, model)
+			}
+			for _, dir := range []struct {
+				given, want cty.Type
+				g, w        spec.T
+			}{{derived, orig, model, in.T}, {orig, derived, in.T, model}} {
+				errs := dir.given.TestConformance(dir.want)
+				if conf := dir.g.Conforms(dir.w); conf != (len(errs) == 0) {
+					return facet.Failf("conform-derived", "TestConformance(%s, %s) with one type derived from the other reports %d errors, model conformance is %t", dir.g, dir.w, len(errs), conf)
+				}
+			}
+			return nil
+		},
+	})
 }
